@@ -1562,6 +1562,29 @@ def run_c05(ctx):
     ctx.hypotheses["H-W1: first token of a top-level line breaks at `level` indentations"] = "unit levels on every trace"
 
 
+_HDR_RE = re.compile(rb"\b(function|procedure|constructor|destructor|operator)\b", re.I)
+_DIRECTIVE_RE = re.compile(rb"(overload|virtual|override|stdcall|cdecl|inline|static|abstract|dynamic|reintroduce|deprecated|platform|external|forward|assembler|register|safecall|message|dispid|final|experimental|library|export|far|near|pascal|varargs|unsafe|winapi|delayed|name|index|local)\b", re.I)
+
+
+def expensive_break_in(out):
+    """does this output contain a line break of one of the kinds get_decision_penalty prices above the default:
+    before the type after `:` in a routine / anonymous-routine header (2^8), before a routine directive (2^9), inside
+    angle brackets (2^10)?  (class condition of finding F26)"""
+    lines = [l.rstrip(b"\r") for l in out.split(b"\n")]
+    for i in range(1, len(lines)):
+        prev, cur = lines[i - 1].rstrip(), lines[i].lstrip()
+        if not prev or not cur:
+            continue
+        near = b"\n".join(lines[max(0, i - 8):i + 1])
+        if prev.endswith(b":") and _HDR_RE.search(near):
+            return True
+        if _DIRECTIVE_RE.match(cur) and _HDR_RE.search(near):
+            return True
+        if prev.endswith(b"<") or cur.startswith(b">") or prev.count(b"<") > prev.count(b">") and re.search(rb"<[\w., ]*$", prev):
+            return True
+    return False
+
+
 def run_c11(ctx):
     rng = ctx.rng
     widths = [10, 16, 20, 25, 30, 40, 45, 60, 80, 100, 120, 160, 200]
@@ -1707,7 +1730,7 @@ def run_c11(ctx):
                         f["ml_families"] = ml_string_families(ctx, c1.text, c1.cfg)
                 if o2.count(b"\n") > o1.count(b"\n"):
                     f = ctx.fail("wider_more_lines", c2, "wrap_column=%d gives %d lines, wrap_column=%d gives %d" % (w2, o2.count(b"\n"), w1, o1.count(b"\n")),
-                             observed=o2.hex()[:2000], expected=o1.hex()[:2000], narrow_overflows=bool(maxlen(o1) > w1), wide_overflows=bool(maxlen(o2) > w2))
+                             observed=o2.hex()[:2000], expected=o1.hex()[:2000], narrow_overflows=bool(maxlen(o1) > w1), wide_overflows=bool(maxlen(o2) > w2), narrow_expensive_break=expensive_break_in(o1))
                     if "'''" in (c2.text if isinstance(c2.text, str) else ""):
                         f["ml_families"] = ml_string_families(ctx, c2.text, c2.cfg)
                 if maxlen(o1) <= w1 and maxlen(o2) > w2:
